@@ -123,3 +123,198 @@ Theorem clean_top_preserved :
 Proof. exact Compose.clean_top_preserved. Qed.
 Print Assumptions clean_top_preserved.
 
+
+(* DOM level (Proofs/DomBlocks.v): h1..h6 and only they become headers of level 1..6; a block
+   quote, ul, div, p is its node over all processed children; ol keeps its items and reads the
+   first start attribute, dl keeps dt/dd *)
+From H2T Require Import Base Tagged Wrap Sub Css Dom Render Api CssParse Proofs.CssTotal Proofs.WrapInv Proofs.RenderWidth Proofs.Conserve Proofs.Footnotes Proofs.AnnBalance Proofs.RenderConserve Proofs.OptionRel Proofs.Compose Proofs.RenderTotal Proofs.FragStream Proofs.SimRel Proofs.Prune Proofs.DomBlocks.
+
+Theorem heading_level_six :
+  forall name : text,
+       (cps name = Nm.h1 -> heading_level name = Some 1) /\
+       (cps name = Nm.h2 -> heading_level name = Some 2) /\
+       (cps name = Nm.h3 -> heading_level name = Some 3) /\
+       (cps name = Nm.h4 -> heading_level name = Some 4) /\
+       (cps name = Nm.h5 -> heading_level name = Some 5) /\ (cps name = Nm.h6 -> heading_level name = Some 6).
+Proof. exact DomBlocks.heading_level_six. Qed.
+Print Assumptions heading_level_six.
+
+Theorem heading_level_range :
+  forall (name : text) (n : N),
+       heading_level name = Some n ->
+       n = 1 /\ cps name = Nm.h1 \/
+       n = 2 /\ cps name = Nm.h2 \/
+       n = 3 /\ cps name = Nm.h3 \/
+       n = 4 /\ cps name = Nm.h4 \/ n = 5 /\ cps name = Nm.h5 \/ n = 6 /\ cps name = Nm.h6.
+Proof. exact DomBlocks.heading_level_range. Qed.
+Print Assumptions heading_level_range.
+
+Theorem be_inv :
+  forall (name : text) (attrs : list (text * text)) (c : cstyle) (cs : list rnode) (nd : rnode),
+       build_element name attrs c cs = Ok (Some nd) ->
+       (is_header nd = true -> exists n : N, heading_level name = Some n /\ nd = RN (IHeader n cs) c) /\
+       (is_cell nd = true -> names [[116; 104]; [116; 100]] name = true).
+Proof. exact DomBlocks.be_inv. Qed.
+Print Assumptions be_inv.
+
+Theorem process_elem_children :
+  forall (sd : styledata) (udc : bool) (inl : list (text * text) -> res (list styledecl)) 
+         (name : text) (attrs : list (text * text)) (kids : list node) (p : list anc) 
+         (idx : Z) (inls : list styledecl) (cs : list rnode),
+       let me := {| a_name := name; a_attrs := attrs; a_idx := idx |} :: p in
+       let computed := computed_style sd me inls in
+       (if udc then inl attrs else Ok []) = Ok inls ->
+       hidden_style computed = false ->
+       childless name = false ->
+       process_kids sd udc inl kids me 1 = Ok cs ->
+       process sd udc inl (NElem true name attrs kids) p idx =
+       (do base <- build_element name attrs computed cs; Ok (finish computed true name attrs base)).
+Proof. exact DomBlocks.process_elem_children. Qed.
+Print Assumptions process_elem_children.
+
+Theorem process_elem_hidden :
+  forall (sd : styledata) (udc : bool) (inl : list (text * text) -> res (list styledecl)) 
+         (name : text) (attrs : list (text * text)) (kids : list node) (p : list anc) 
+         (idx : Z) (inls : list styledecl),
+       (if udc then inl attrs else Ok []) = Ok inls ->
+       hidden_style (computed_style sd ({| a_name := name; a_attrs := attrs; a_idx := idx |} :: p) inls) =
+       true -> process sd udc inl (NElem true name attrs kids) p idx = Ok None.
+Proof. exact DomBlocks.process_elem_hidden. Qed.
+Print Assumptions process_elem_hidden.
+
+Theorem process_header :
+  forall (sd : styledata) (udc : bool) (inl : list (text * text) -> res (list styledecl)) 
+         (name : text) (attrs : list (text * text)) (kids : list node) (p : list anc) 
+         (idx : Z) (inls : list styledecl) (cs : list rnode),
+       (if udc then inl attrs else Ok []) = Ok inls ->
+       hidden_style (computed_style sd ({| a_name := name; a_attrs := attrs; a_idx := idx |} :: p) inls) =
+       false ->
+       process_kids sd udc inl kids ({| a_name := name; a_attrs := attrs; a_idx := idx |} :: p) 1 = Ok cs ->
+       forall n : N,
+       heading_level name = Some n ->
+       process sd udc inl (NElem true name attrs kids) p idx =
+       Ok
+         (finish (computed_style sd ({| a_name := name; a_attrs := attrs; a_idx := idx |} :: p) inls) true
+            name attrs
+            (Some
+               (RN (IHeader n cs)
+                  (computed_style sd ({| a_name := name; a_attrs := attrs; a_idx := idx |} :: p) inls)))).
+Proof. exact DomBlocks.process_header. Qed.
+Print Assumptions process_header.
+
+Theorem process_header_plain :
+  forall (sd : styledata) (udc : bool) (inl : list (text * text) -> res (list styledecl)) 
+         (name : text) (attrs : list (text * text)) (kids : list node) (p : list anc) 
+         (idx : Z) (inls : list styledecl) (cs : list rnode),
+       (if udc then inl attrs else Ok []) = Ok inls ->
+       hidden_style (computed_style sd ({| a_name := name; a_attrs := attrs; a_idx := idx |} :: p) inls) =
+       false ->
+       process_kids sd udc inl kids ({| a_name := name; a_attrs := attrs; a_idx := idx |} :: p) 1 = Ok cs ->
+       forall n : N,
+       heading_level name = Some n ->
+       plain (computed_style sd ({| a_name := name; a_attrs := attrs; a_idx := idx |} :: p) inls) name attrs ->
+       process sd udc inl (NElem true name attrs kids) p idx =
+       Ok
+         (Some
+            (RN (IHeader n cs)
+               (computed_style sd ({| a_name := name; a_attrs := attrs; a_idx := idx |} :: p) inls))).
+Proof. exact DomBlocks.process_header_plain. Qed.
+Print Assumptions process_header_plain.
+
+Theorem process_blockquote :
+  forall (sd : styledata) (udc : bool) (inl : list (text * text) -> res (list styledecl)) 
+         (name : text) (attrs : list (text * text)) (kids : list node) (p : list anc) 
+         (idx : Z) (inls : list styledecl) (cs : list rnode),
+       (if udc then inl attrs else Ok []) = Ok inls ->
+       hidden_style (computed_style sd ({| a_name := name; a_attrs := attrs; a_idx := idx |} :: p) inls) =
+       false ->
+       process_kids sd udc inl kids ({| a_name := name; a_attrs := attrs; a_idx := idx |} :: p) 1 = Ok cs ->
+       cps name = Nm.blockquote ->
+       process sd udc inl (NElem true name attrs kids) p idx =
+       Ok
+         (finish (computed_style sd ({| a_name := name; a_attrs := attrs; a_idx := idx |} :: p) inls) true
+            name attrs (noempty_opt sd name attrs p idx inls cs (IBlockQuote cs))).
+Proof. exact DomBlocks.process_blockquote. Qed.
+Print Assumptions process_blockquote.
+
+Theorem process_ul :
+  forall (sd : styledata) (udc : bool) (inl : list (text * text) -> res (list styledecl)) 
+         (name : text) (attrs : list (text * text)) (kids : list node) (p : list anc) 
+         (idx : Z) (inls : list styledecl) (cs : list rnode),
+       (if udc then inl attrs else Ok []) = Ok inls ->
+       hidden_style (computed_style sd ({| a_name := name; a_attrs := attrs; a_idx := idx |} :: p) inls) =
+       false ->
+       process_kids sd udc inl kids ({| a_name := name; a_attrs := attrs; a_idx := idx |} :: p) 1 = Ok cs ->
+       cps name = Nm.ul ->
+       process sd udc inl (NElem true name attrs kids) p idx =
+       Ok
+         (finish (computed_style sd ({| a_name := name; a_attrs := attrs; a_idx := idx |} :: p) inls) true
+            name attrs (noempty_opt sd name attrs p idx inls cs (IUl cs))).
+Proof. exact DomBlocks.process_ul. Qed.
+Print Assumptions process_ul.
+
+Theorem process_div :
+  forall (sd : styledata) (udc : bool) (inl : list (text * text) -> res (list styledecl)) 
+         (name : text) (attrs : list (text * text)) (kids : list node) (p : list anc) 
+         (idx : Z) (inls : list styledecl) (cs : list rnode),
+       (if udc then inl attrs else Ok []) = Ok inls ->
+       hidden_style (computed_style sd ({| a_name := name; a_attrs := attrs; a_idx := idx |} :: p) inls) =
+       false ->
+       process_kids sd udc inl kids ({| a_name := name; a_attrs := attrs; a_idx := idx |} :: p) 1 = Ok cs ->
+       cps name = Nm.div ->
+       process sd udc inl (NElem true name attrs kids) p idx =
+       Ok
+         (finish (computed_style sd ({| a_name := name; a_attrs := attrs; a_idx := idx |} :: p) inls) true
+            name attrs (noempty_opt sd name attrs p idx inls cs (IDiv cs))).
+Proof. exact DomBlocks.process_div. Qed.
+Print Assumptions process_div.
+
+Theorem process_p :
+  forall (sd : styledata) (udc : bool) (inl : list (text * text) -> res (list styledecl)) 
+         (name : text) (attrs : list (text * text)) (kids : list node) (p : list anc) 
+         (idx : Z) (inls : list styledecl) (cs : list rnode),
+       (if udc then inl attrs else Ok []) = Ok inls ->
+       hidden_style (computed_style sd ({| a_name := name; a_attrs := attrs; a_idx := idx |} :: p) inls) =
+       false ->
+       process_kids sd udc inl kids ({| a_name := name; a_attrs := attrs; a_idx := idx |} :: p) 1 = Ok cs ->
+       cps name = Nm.p ->
+       process sd udc inl (NElem true name attrs kids) p idx =
+       Ok
+         (finish (computed_style sd ({| a_name := name; a_attrs := attrs; a_idx := idx |} :: p) inls) true
+            name attrs (noempty_opt sd name attrs p idx inls cs (IBlock cs))).
+Proof. exact DomBlocks.process_p. Qed.
+Print Assumptions process_p.
+
+Theorem process_ol :
+  forall (sd : styledata) (udc : bool) (inl : list (text * text) -> res (list styledecl)) 
+         (name : text) (attrs : list (text * text)) (kids : list node) (p : list anc) 
+         (idx : Z) (inls : list styledecl) (cs : list rnode),
+       (if udc then inl attrs else Ok []) = Ok inls ->
+       hidden_style (computed_style sd ({| a_name := name; a_attrs := attrs; a_idx := idx |} :: p) inls) =
+       false ->
+       process_kids sd udc inl kids ({| a_name := name; a_attrs := attrs; a_idx := idx |} :: p) 1 = Ok cs ->
+       cps name = Nm.ol ->
+       process sd udc inl (NElem true name attrs kids) p idx =
+       Ok
+         (finish (computed_style sd ({| a_name := name; a_attrs := attrs; a_idx := idx |} :: p) inls) true
+            name attrs
+            (noempty_opt sd name attrs p idx inls cs (IOl (ol_start attrs) (filter_info is_li cs)))).
+Proof. exact DomBlocks.process_ol. Qed.
+Print Assumptions process_ol.
+
+Theorem process_dl :
+  forall (sd : styledata) (udc : bool) (inl : list (text * text) -> res (list styledecl)) 
+         (name : text) (attrs : list (text * text)) (kids : list node) (p : list anc) 
+         (idx : Z) (inls : list styledecl) (cs : list rnode),
+       (if udc then inl attrs else Ok []) = Ok inls ->
+       hidden_style (computed_style sd ({| a_name := name; a_attrs := attrs; a_idx := idx |} :: p) inls) =
+       false ->
+       process_kids sd udc inl kids ({| a_name := name; a_attrs := attrs; a_idx := idx |} :: p) 1 = Ok cs ->
+       cps name = Nm.dl ->
+       process sd udc inl (NElem true name attrs kids) p idx =
+       Ok
+         (finish (computed_style sd ({| a_name := name; a_attrs := attrs; a_idx := idx |} :: p) inls) true
+            name attrs (noempty_opt sd name attrs p idx inls cs (IDl (filter_info is_dtdd cs)))).
+Proof. exact DomBlocks.process_dl. Qed.
+Print Assumptions process_dl.
+
